@@ -247,7 +247,7 @@ func classifyRefFailure(c *Case, impl, ref Canon) []string {
 	if varianceConditioning(c, impl, ref) {
 		tags = append(tags, "variance-conditioning")
 	}
-	if illConditioned(c, impl, ref) {
+	if illConditioned(c, impl, ref) || (valueOnlyDifference(impl, ref) && cancellingSum(c)) {
 		tags = append(tags, "ill-conditioned")
 	}
 	// only for explicitly overflowing magnitudes (a literal of the order 1e300 in the query)
@@ -265,6 +265,100 @@ func classifyRefFailure(c *Case, impl, ref Canon) []string {
 // at this input ((-1e300) % stddev(...), differences of nearly equal sums, ...),
 // so a difference within that amplification says nothing about the engine.
 func illConditioned(c *Case, impl, ref Canon) bool { return illConditionedWith(c, impl, ref, newRef) }
+
+// valueOnlyDifference: same kind, series and timestamps.
+func valueOnlyDifference(a, b Canon) bool {
+	if a.Kind == "error" || b.Kind == "error" || a.Kind != b.Kind || len(a.Series) != len(b.Series) {
+		return false
+	}
+	for i := range a.Series {
+		x, y := a.Series[i], b.Series[i]
+		if x.Key != y.Key || len(x.Points) != len(y.Points) {
+			return false
+		}
+		for j := range x.Points {
+			if x.Points[j].T != y.Points[j].T {
+				return false
+			}
+		}
+	}
+	return true
+}
+
+// cancellingSum: some sum/avg of the query has, at some step and in some group of
+// its operand (as evaluated by the reference engine), terms that cancel so far
+// that the order of summation alone moves the result by more than the comparison's
+// tolerance: (sum |x|) / |sum x| * n * 2^-53 > 1e-10. The reference engine sums in
+// the order of a Go map iteration, so its own result varies from run to run there.
+func cancellingSum(c *Case) bool {
+	expr, err := parser.ParseExpr(c.Query)
+	if err != nil {
+		return false
+	}
+	st := NewStore(c.Data)
+	cfg := c.Cfg()
+	eng := promql.NewEngine(promOpts(cfg))
+	found := false
+	parser.Inspect(expr, func(n parser.Node, _ []parser.Node) error {
+		a, ok := n.(*parser.AggregateExpr)
+		if !ok || found || (a.Op != parser.SUM && a.Op != parser.AVG) {
+			return nil
+		}
+		var qo *promql.QueryOpts
+		if cfg.QueryLookback != 0 {
+			qo = &promql.QueryOpts{LookbackDelta: cfg.QueryLookback}
+		}
+		w := c.Window
+		step, end := time.Duration(w.Step)*time.Millisecond, w.End
+		if w.Instant() {
+			step, end = time.Second, w.Start
+		}
+		q, err := eng.NewRangeQuery(st, qo, a.Expr.String(), time.UnixMilli(w.Start), time.UnixMilli(end), step)
+		if err != nil {
+			return nil
+		}
+		defer q.Close()
+		r := q.Exec(context.Background())
+		if r.Err != nil {
+			return nil
+		}
+		m, ok := r.Value.(promql.Matrix)
+		if !ok {
+			return nil
+		}
+		type key struct {
+			t int64
+			g string
+		}
+		type acc struct {
+			sum, abs float64
+			n        int
+		}
+		groups := map[key]*acc{}
+		for _, s := range m {
+			g := groupKey(s.Metric, a.Without, a.Grouping)
+			for _, p := range s.Points {
+				if math.IsNaN(p.V) || math.IsInf(p.V, 0) {
+					continue
+				}
+				k := key{p.T, g}
+				if groups[k] == nil {
+					groups[k] = &acc{}
+				}
+				groups[k].sum += p.V
+				groups[k].abs += math.Abs(p.V)
+				groups[k].n++
+			}
+		}
+		for _, g := range groups {
+			if g.abs > 0 && g.n > 1 && g.abs*float64(g.n)*1.1e-16 > 1e-10*math.Abs(g.sum) {
+				found = true
+			}
+		}
+		return nil
+	})
+	return found
+}
 
 // illConditionedWith: [ref] was computed by [mk]'s engine on the case's data.
 func illConditionedWith(c *Case, impl, ref Canon, mk func(EngineCfg) queryMaker) bool {
@@ -301,7 +395,27 @@ func illConditionedWith(c *Case, impl, ref Canon, mk func(EngineCfg) queryMaker)
 	}
 	cfg := c.Cfg()
 	moved, _ := runQuery(mk(cfg), NewStore(pert), cfg, c.Query, c.Window)
-	return diffCanon(moved, ref, false) != ""
+	if diffCanon(moved, ref, false) != "" {
+		return true
+	}
+	// ... or when the same samples are summed in another order (the storage returns the
+	// series reversed / rotated): sums of terms that cancel (avg(tanh(foo)) over +1 and -1)
+	for k := 0; k < 2; k++ {
+		n := len(c.Data)
+		re := make([]SeriesData, n)
+		for i := range c.Data {
+			if k == 0 {
+				re[n-1-i] = c.Data[i]
+			} else {
+				re[(i+n/2)%n] = c.Data[i]
+			}
+		}
+		other, _ := runQuery(mk(cfg), NewStore(re), cfg, c.Query, c.Window)
+		if d := diffCanon(other, ref, false); d != "" && other.Kind == ref.Kind && len(other.Series) == len(ref.Series) {
+			return true
+		}
+	}
+	return false
 }
 
 // varianceConditioning: the query is a stddev/stdvar at the top level and the
